@@ -934,6 +934,14 @@ def _wrapped_by_copy(t, R):
         c2 = copied
         if x[0] == 'call' and x[1] in (('ext', 'LIST'), ('ext', 'SORTED'), ('ext', 'DICT'), ('ext', 'SET'), ('ext', 'TUPLE'), ('meth', 'copy'), ('ext', 'COPY'), ('ext', 'copy.deepcopy')):
             c2 = True
+        if x[0] == 'dict':
+            for k_, v_ in x[1]:
+                if k_ is None:
+                    walk(v_, True)          # {**R, ...}: a new dict with R's entries
+                else:
+                    walk(k_, copied)
+                    walk(v_, copied)
+            return
         if x[0] == 'comp':
             for shape, src, conds in x[3]:
                 walk(src, True)
